@@ -157,8 +157,16 @@ def handle (op : Json) : R Json := do
     return jResult (Gen.addTo f none)
   | "eq" =>
     let side (j : Json) : R Fld := do
-      let c ← findCtor (← str j "c")
-      build c (← hexFld j "key") (fldD j "a" (obj []))
+      let nm ← str j "c"
+      let c ← findCtor nm
+      let f ← build c (← hexFld j "key") (fldD j "a" (obj []))
+      -- "zap.Objects*" is the SAME generic constructor instantiated at a pointer type: its payload has another dynamic type
+      -- (objects[*T] vs objects[T]), which Go's == / reflect.DeepEqual tell apart even when both slices are nil or empty
+      if nm.endsWith "*" then
+        match f.iface with
+        | .box b => pure { f with iface := .box { b with dyn := b.dyn ++ "*" } }
+        | _ => pure f
+      else pure f
     let f ← side (← fld op "f")
     let g ← side (← fld op "g")
     let e := equalsWith Gen.equalsArm
